@@ -235,4 +235,25 @@ PROPS = {
                  "abort/error or not-ready suspension); distinct by hash of (generated rules, operation list)."),
         "assumptions": [],
     },
+    "C13": {
+        "src": "c13", "engine": "rc", "level": "exploration",
+        "technique": "differential property testing (rapidcheck) across the seven scan entry points, plus enumeration of not-ready schedules over generated block partitions",
+        "level_text": ("The same bytes (empty, 1, 4095, 4096, 4097, 8192 bytes, PE and ELF samples, generated text) are scanned "
+                       "through yr_rules_scan_mem/file/fd/mem_blocks and yr_scanner_scan_mem/file/fd/mem_blocks with a "
+                       "single-block iterator and the full traces must be identical; then the buffer is cut into 1-5 blocks "
+                       "and scanned with an iterator that reports ERROR_BLOCK_NOT_READY according to a schedule - all "
+                       "2^(blocks+1)-1 schedules of the first pass for <= 4 blocks plus random ones with repeated "
+                       "not-readies - and the final trace and return code must equal those of the uninterrupted scan of the "
+                       "same blocks, with no rule message emitted by an interrupted call."),
+        "level_note": ("Trusts the shim's iterator; not-ready reports during the re-iteration done by rule evaluation "
+                       "(modules, uintN readers) are outside the iterator contract of capi.rst and are not generated; "
+                       "CALLBACK_MSG_TOO_SLOW_SCANNING lines are ignored."),
+        "quick": (600, 45), "thorough": (30000, 600),
+        "floor": 50,
+        "rule": ("case = fixed 16-rule set + 1-5 generated rules, one buffer, 7 entry-point scans, one block partition and "
+                 "up to 35 not-ready schedules. Non-trivial: >= 2 blocks, a not-ready on one of the last two iterator steps "
+                 "(after earlier blocks were scanned) and >= 1 string match in the scan; distinct by hash of (generated "
+                 "rules, buffer, partition)."),
+        "assumptions": [],
+    },
 }
